@@ -112,8 +112,8 @@ func ErrInfoNameInvalid(d string) ErrorInfo {
 // ErrInfoNameUnknown is returned when the repository name is not known to the registry.
 func ErrInfoNameUnknown(d string) ErrorInfo {
 	return ErrorInfo{
-		Code:    "repository name not known to registry",
-		Message: "NAME_UNKNOWN",
+		Code:    "NAME_UNKNOWN",
+		Message: "repository name not known to registry",
 		Detail:  d,
 	}
 }
